@@ -30,8 +30,15 @@ impl SelectState {
         }
     }
 
+    /// called when a retransmitted (non-READ) request is received
+    ///
+    /// Only a retransmission that directly follows the SELECT (or a previous retransmission
+    /// of it) is a retransmission of the SELECT itself. Any other repeated request means that
+    /// something else was received after the SELECT, so the OPERATE must not match anymore.
     pub(crate) fn update_frame_id(&mut self, new_frame_id: u32) {
-        self.frame_id = new_frame_id;
+        if self.frame_id.wrapping_add(1) == new_frame_id {
+            self.frame_id = new_frame_id;
+        }
     }
 
     pub(crate) fn match_operate(
